@@ -23,7 +23,7 @@ import z3  # noqa: E402
 from pyvc.loader import Repo  # noqa: E402
 from pyvc.spec import Registry, parse_expr  # noqa: E402
 from pyvc.symex import Unsupported, SpecError, Obligation  # noqa: E402
-from pyvc.verify import Verifier, discharge, Result  # noqa: E402
+from pyvc.verify import Verifier, discharge, Result, to_smt2, discharge_smt2, run_cvc5_text  # noqa: E402
 import specs  # noqa: E402
 
 EVIDENCE_DIR = os.path.join(HERE, "evidence")
@@ -56,54 +56,33 @@ def _init_worker(tier, seed):
 
 
 def verify_one(target):
-    """worker: symbolic execution + discharge of one contract target -> JSON-able dict"""
+    """worker, phase 1: symbolic execution of one contract target -> obligations as SMT-LIB2 text"""
     repo, R = _G["repo"], _G["reg"]
-    tier = _G["tier"]
     c = R.contracts[target]
-    out = dict(target=target, results=[], error=None, kind="contract")
+    out = dict(target=target, results=[], error=None, kind="contract", obls=[])
     t0 = time.time()
-    timeout = 10000 if tier == "quick" else 60000
     try:
         v = Verifier(repo, R)
-        v.finding_specs = [f for f in _G["findings"] if f.get("target") == target and f.get("status", "open") == "open"]
+        v.finding_specs = [f for f in _G["findings"] if f.get("target") == target]
         obls = v.verify_target(c)
         bg = v.background()
-        out["symex_s"] = round(time.time() - t0, 3)
         out["paths"] = v.npaths
         out["exits"] = v.exit_kinds
         out["func"] = v.func_info
         out["inlined"] = sorted(v.inlined)
         out["used"] = sorted(v.used_contracts)
-        reachable = 0
         for o in obls:
-            r = discharge(o, bg, timeout_ms=timeout, seed=_G["seed"])
-            d = r.to_json()
-            d["size"] = sum(len(str(a)) for a in o.assumptions) + len(str(o.goal))
-            if r.status != "proved":
-                # known finding? re-discharge outside the finding's signature
-                for f in v.finding_specs:
-                    if f.get("kind") and f["kind"] != o.kind:
-                        continue
-                    sig = getattr(v, "finding_sigs", {}).get((f["id"], tuple(o.extra.get("pathkey", ()))))
-                    sig = o.extra.get("sigs", {}).get(f["id"])
-                    if sig is None:
-                        continue
-                    o2 = Obligation(o.name, list(o.assumptions) + [z3.Not(sig)], o.goal, o.kind, o.line, o.extra)
-                    r2 = discharge(o2, bg, timeout_ms=timeout, seed=_G["seed"])
-                    if r2.status == "proved":
-                        d["known_finding"] = f["id"]
-                        break
-                d["path"] = o.extra.get("path")
-                d["note"] = o.extra.get("note")
-                d["goal"] = str(o.goal)[:1500]
-            if tier == "thorough" and r.status == "proved":
-                # second back end / second seed must agree
-                r3 = discharge(o, bg, timeout_ms=timeout, seed=_G["seed"] + 7)
-                d["seed2"] = r3.status
-            out["results"].append(d)
-        # vacuity canary: the requires clause must be satisfiable together with the typing assumptions
-        can = v.canary(c)
-        out["canary"] = can
+            item = dict(name=o.name, kind=o.kind, line=o.line, smt2=to_smt2(o, bg), path=o.extra.get("path"), note=o.extra.get("note"),
+                        goal=str(o.goal)[:1500], size=sum(len(str(a)) for a in o.assumptions) + len(str(o.goal)), excl={})
+            for f in v.finding_specs:
+                if f.get("kind") and f["kind"] != o.kind:
+                    continue
+                sig = o.extra.get("sigs", {}).get(f["id"])
+                if sig is not None:
+                    item["excl"][f["id"]] = to_smt2(o, bg, [z3.Not(sig)])
+            out["obls"].append(item)
+        out["canary"] = v.canary(c)
+        out["symex_s"] = round(time.time() - t0, 3)
     except Unsupported as e:
         out["error"] = "unsupported: %s" % e
         out["kind_err"] = "undecided"
@@ -115,6 +94,28 @@ def verify_one(target):
         out["kind_err"] = "fault"
     out["wall_s"] = round(time.time() - t0, 3)
     return out
+
+
+def discharge_one(item):
+    """worker, phase 2: one obligation"""
+    tier, seed = _G["tier"], _G["seed"]
+    timeout = 10000 if tier == "quick" else 60000
+    r = discharge_smt2(item["name"], item["kind"], item["line"], item["smt2"], timeout_ms=timeout, seed=seed)
+    d = r.to_json()
+    d["size"] = item["size"]
+    if r.status != "proved":
+        for fid, smt2 in item.get("excl", {}).items():
+            r2 = discharge_smt2(item["name"], item["kind"], item["line"], smt2, timeout_ms=timeout, seed=seed)
+            if r2.status == "proved":
+                d["known_finding"] = fid
+                break
+        d["path"], d["note"], d["goal"] = item.get("path"), item.get("note"), item.get("goal")
+    elif tier == "thorough":
+        r3 = discharge_smt2(item["name"], item["kind"], item["line"], item["smt2"], timeout_ms=timeout, seed=seed + 7)
+        d["seed2"] = r3.status
+        st, t2 = run_cvc5_text(item["smt2"], timeout)
+        d["cvc5"] = st
+    return d
 
 
 def verify_lemma(idx):
@@ -173,6 +174,14 @@ def main(argv=None):
             jobs += [pool.apply_async(verify_lemma, (i,)) for i in lemmas]
             for j in jobs:
                 outs.append(j.get(timeout=3600))
+            # phase 2: every obligation is one task
+            flat = [(o, it) for o in outs for it in o.pop("obls", [])]
+            flat.sort(key=lambda p: -p[1]["size"])
+            res = pool.map(discharge_one, [it for _, it in flat], chunksize=1)
+            for (o, it), d in zip(flat, res):
+                o["results"].append(d)
+            for o in outs:
+                o["results"].sort(key=lambda d: int(d["name"].rsplit("#", 1)[1]) if "#" in d["name"] else 0)
     except Exception:
         traceback.print_exc()
         return report.fault(prop, tier, seed, "worker pool failed", t0)
